@@ -241,16 +241,21 @@ class PythonExpr(TalesExpr):
         # Strip spaces
         string = expression.strip()
 
-        # Convert line continuations to newlines
-        string = substitute(re_continuation, '\n', string)
-
-        # Convert newlines to spaces
-        string = string.replace('\n', ' ')
-
         try:
+            # Line breaks inside brackets and string literals are part
+            # of the expression as written
             value = self.parse(string)
-        except SyntaxError as exc:
-            raise ExpressionError(exc.msg, string)
+        except SyntaxError:
+            # Convert line continuations to newlines
+            string = substitute(re_continuation, '\n', string)
+
+            # Convert newlines to spaces
+            string = string.replace('\n', ' ')
+
+            try:
+                value = self.parse(string)
+            except SyntaxError as exc:
+                raise ExpressionError(exc.msg, string)
 
         # Transform attribute lookups to allow fallback to item lookup
         result = self.transform.visit(value)
